@@ -70,6 +70,28 @@ fn run_with(ev: &CircuitEval, pw: PartialWitness<F>, ovrs: &[Ovr]) -> Outcome {
     };
     ev.run(pw, &mut tw)
 }
+
+/// The honest outputs (low, high) of LowHighGenerator occurrence `occ` on this input, and from them the override that
+/// presents the SAME field element through its other 64-bit representative x + p (None when x + p >= 2^64).
+/// For u32_lt's 32/33 split the alias has high = 2^32 - 1: only the 1-bit range check on the high part excludes it.
+fn lh_alias_of(ev: &CircuitEval, pw: PartialWitness<F>, occ: usize) -> Option<Ovr> {
+    let mut seen: Option<(u64, u64)> = None;
+    {
+        let mut tw = |id: &str, o: usize, _w: &plonky2::iop::witness::PartitionWitness<F>, vals: &mut Vec<(Target, F)>| {
+            if id.starts_with(LH) && o == occ && vals.len() >= 2 {
+                seen = Some((vals[0].1.to_canonical_u64(), vals[1].1.to_canonical_u64()));
+            }
+        };
+        let _ = ev.run(pw, &mut tw);
+    }
+    let (lo, hi) = seen?;
+    let x = lo as u128 + ((hi as u128) << 32);
+    let y = x + P as u128;
+    if y >> 64 != 0 {
+        return None;
+    }
+    Some(Ovr { kind: 2, occ, vals: vec![(y & 0xFFFF_FFFF) as u64, (y >> 32) as u64] })
+}
 fn ovr_segs(ovrs: &[Ovr]) -> Vec<Seg> {
     ovrs.iter()
         .map(|o| {
@@ -199,7 +221,23 @@ fn main() {
                         }
                         ovrs.push(Ovr { kind: 3, occ: 0, vals: bs });
                     } else {
-                        match rng.below(6) {
+                        match rng.below(8) {
+                            6 | 7 => {
+                                // u32_lt's 32/33 split presented through its x + p alias (high = 2^32 - 1, not a bit)
+                                let occ = 1 + rng.below(2) as usize;
+                                let mut pw0 = PartialWitness::new();
+                                pw_set(&mut pw0, circ.x, x);
+                                match lh_alias_of(&ev, pw0, occ) {
+                                    Some(o) => {
+                                        ovrs.push(o);
+                                        tag = "u32lt-lh-alias";
+                                    }
+                                    None => {
+                                        ovrs.push(Ovr { kind: 2, occ, vals: vec![rng.below(1 << 32), (1 << 32) - 1] });
+                                        tag = "u32lt-high-not-a-bit";
+                                    }
+                                }
+                            }
                             0 => {
                                 // the x+p alias of the 32/64 split (exists iff x + p < 2^64)
                                 let y = x as u128 + P as u128;
@@ -394,7 +432,21 @@ fn main() {
                     let neq = ev.count_gen(EQ);
                     let mut ovrs: Vec<Ovr> = vec![];
                     let tag;
-                    match rng.below(4) {
+                    match rng.below(6) {
+                        4 | 5 => {
+                            // a comparator's 32/33 split presented through the x + p alias (high = 2^32 - 1, not a bit)
+                            let occ = 4 * n + rng.below((nlh - 4 * n) as u64) as usize;
+                            match lh_alias_of(&ev, mk(&ins), occ) {
+                                Some(o) => {
+                                    ovrs.push(o);
+                                    tag = "sort-u32lt-alias";
+                                }
+                                None => {
+                                    ovrs.push(Ovr { kind: 2, occ, vals: vec![rng.below(1 << 32), (1 << 32) - 1] });
+                                    tag = "sort-u32lt-high-not-a-bit";
+                                }
+                            }
+                        }
                         0 => {
                             let occ = rng.below((4 * n) as u64) as usize; // ingress splits come first
                             let x = vals[occ / 4][occ % 4];
